@@ -128,6 +128,19 @@ type State struct {
 	allocTags    map[string]bool // dynamic types of the objects created since function entry
 	allocUnknown bool
 	summaryFor   string
+	code *ssa.Function // function whose instructions are being executed (differs from fn inside an inlined helper)
+	inl  []inlineFrame // call stack of inlined (contract-less) helper functions
+}
+
+// inlineFrame: where to continue in the caller when an inlined helper returns.
+type inlineFrame struct {
+	code      *ssa.Function
+	block     *ssa.BasicBlock
+	idx       int // index of the call instruction in block
+	call      *ssa.Call
+	loopBase  int
+	defers    []deferred
+	deferArgs [][]Val
 }
 
 type deferred struct {
@@ -168,6 +181,7 @@ func (s *State) fork() *State {
 	n.loops = append([]*loopFrame(nil), s.loops...)
 	n.trace = append([]string(nil), s.trace...)
 	n.defers = append([]deferred(nil), s.defers...)
+	n.inl = append([]inlineFrame(nil), s.inl...)
 	return &n
 }
 
